@@ -114,6 +114,16 @@ class Mon:
         r = self.X.parse(b)
         s = b.decode('latin1')
         self.n[v.cls] += 1
+        # the verdict and the composition do not depend on whether the caller passes an error slot
+        r0 = self.X.parse(b, slot=False)
+        self.n['without-slot'] += 1
+        if isinstance(r, xl.Err) != (r0 is None) or (r0 is not None and not isinstance(r, xl.Err) and
+                                                     any(repr(r0[k]) != repr(r[k]) for k in ('Elements', 'nAtoms', 'massFractions', 'nAtomsAll', 'molarMass'))):
+            self.ck.violation('c07:result-without-error-slot-differs:%s' % v.cls.lower(),
+                              'CompoundParser gives %s without an error slot and %s with one' % (
+                                  'NULL' if r0 is None else 'Z=%r nAtoms=%r' % (r0['Elements'], r0['nAtoms']),
+                                  'error (%s)' % r.message if isinstance(r, xl.Err) else 'Z=%r nAtoms=%r' % (r['Elements'], r['nAtoms'])),
+                              dict(formula=s, origin=origin))
         if isinstance(r, xl.Err):
             self.msgs[norm_msg(r.message)] += 1
             if r.code == -1 and r.message == 'NULL without error':
